@@ -1627,6 +1627,8 @@ checkpointed user %u", u);
 static int
 chkpnt(void)
 {
+	uid_t redo[countof(chkpnts)];
+	size_t nredo = 0U;
 	int rc = 0;
 
 	ECHS_NOTI_LOG("checkpoint");
@@ -1636,13 +1638,23 @@ chkpnt(void)
 	}
 	/* otherwise just go through the list of checkpoint users */
 	for (size_t i = 0U; i < ichkpnts; i++) {
-		rc += chkpnt1(chkpnts[i].key);
+		if (UNLIKELY(chkpnt1(chkpnts[i].key) < 0)) {
+			/* better luck next time */
+			redo[nredo++] = chkpnts[i].key;
+			rc--;
+		}
 	}
 fin:
 	/* all checkpoints cleared hopefully,
 	 * the nodes in CHKPNTS are going to be reused so forget them */
 	ichkpnts = 0U;
 	NEDTRIE_INIT(&chkpntr);
+	/* users whose file couldn't be written have still got changes
+	 * that aren't on disk, keep them on the list */
+	for (size_t i = 0U; i < nredo; i++, ichkpnts++) {
+		chkpnts[ichkpnts].key = redo[i];
+		NEDTRIE_INSERT(ndtr_t, &chkpntr, chkpnts + ichkpnts);
+	}
 	return rc;
 }
 
